@@ -4,6 +4,7 @@ import (
 	"fmt"
 	"math"
 	"sort"
+	"strconv"
 	"strings"
 
 	"verif/harness/lib"
@@ -798,29 +799,490 @@ func hasMutator(v any) bool {
 	return false
 }
 
-// enumerates: some string of the plan is a path text with a fragment that visits a whole container
-// or filters it (`*`, `..`, `[?`, a slice or a union): its results follow Go's map iteration order.
-func enumerates(v any) bool {
-	switch t := v.(type) {
-	case string:
-		if len(t) > 0 {
-			return strings.Contains(t, "*") || strings.Contains(t, "..") || strings.Contains(t, "[?") ||
-				strings.Contains(t, ":") || strings.Contains(t, ",")
+// ---- the predicate of C20-map-order -------------------------------------------------------------------
+// A plan's result may follow Go's map iteration order only where a JSONPath ARGUMENT (never a function
+// name, never a plain string) has a wildcard, a recursive descent, a filter, a slice or a union, and that
+// fragment ranges over an OBJECT with two or more members in the data. enumSite decides that per case
+// from the structure of the plan and the data (the root before and after the runs).
+
+type pfrag struct {
+	kind byte // 'c' child, 'i' index, '*' wildcard, 'd' descent, 'e' filter/slice/union
+	key  string
+	idx  int
+}
+
+// splitPath reads a path text ("$.a[1].*", "@..x", "src.l[1]") into fragments; ok=false: not understood.
+func splitPath(s string) (frs []pfrag, ok bool) {
+	i := 0
+	if len(s) > 0 && (s[0] == '$' || s[0] == '@') {
+		i = 1
+	} else if len(s) > 0 && s[0] != '.' && s[0] != '[' {
+		s = "." + s
+	}
+	name := func() (string, bool) {
+		j := i
+		for j < len(s) && s[j] != '.' && s[j] != '[' {
+			j++
 		}
+		if j == i {
+			return "", false
+		}
+		n := s[i:j]
+		i = j
+		return n, true
+	}
+	for i < len(s) {
+		switch s[i] {
+		case '.':
+			i++
+			if i < len(s) && s[i] == '.' {
+				i++
+				frs = append(frs, pfrag{kind: 'd'})
+				if i >= len(s) {
+					return frs, true
+				}
+				if s[i] == '[' {
+					continue
+				}
+			}
+			if i < len(s) && s[i] == '*' {
+				i++
+				frs = append(frs, pfrag{kind: '*'})
+				continue
+			}
+			n, ok := name()
+			if !ok {
+				return nil, false
+			}
+			frs = append(frs, pfrag{kind: 'c', key: n})
+		case '[':
+			depth, q, j := 0, byte(0), i
+			for ; j < len(s); j++ {
+				c := s[j]
+				if q != 0 {
+					if c == '\\' {
+						j++
+					} else if c == q {
+						q = 0
+					}
+					continue
+				}
+				if c == '\'' || c == '"' {
+					q = c
+				} else if c == '[' || c == '(' {
+					depth++
+				} else if c == ']' || c == ')' {
+					depth--
+					if depth == 0 {
+						break
+					}
+				}
+			}
+			if j >= len(s) {
+				return nil, false
+			}
+			body := strings.TrimSpace(s[i+1 : j])
+			i = j + 1
+			switch {
+			case body == "*":
+				frs = append(frs, pfrag{kind: '*'})
+			case strings.HasPrefix(body, "?"):
+				frs = append(frs, pfrag{kind: 'e'})
+			case len(body) >= 2 && (body[0] == '\'' || body[0] == '"') && body[len(body)-1] == body[0] && !strings.ContainsAny(body[1:len(body)-1], "'\"\\"):
+				frs = append(frs, pfrag{kind: 'c', key: body[1 : len(body)-1]})
+			case strings.ContainsAny(body, ":,"):
+				frs = append(frs, pfrag{kind: 'e'})
+			default:
+				n, err := strconv.Atoi(body)
+				if err != nil {
+					return nil, false
+				}
+				frs = append(frs, pfrag{kind: 'i', idx: n})
+			}
+		default:
+			return nil, false
+		}
+	}
+	return frs, true
+}
+
+func hasMultiMap(v any) bool {
+	switch t := v.(type) {
 	case []any:
 		for _, x := range t {
-			if enumerates(x) {
+			if hasMultiMap(x) {
 				return true
 			}
 		}
 	case map[string]any:
+		if len(t) >= 2 {
+			return true
+		}
 		for _, x := range t {
-			if enumerates(x) {
+			if hasMultiMap(x) {
 				return true
 			}
 		}
 	}
 	return false
+}
+
+func subtrees(v any, out *[]any) {
+	if len(*out) > 5000 {
+		return
+	}
+	*out = append(*out, v)
+	switch t := v.(type) {
+	case []any:
+		for _, x := range t {
+			subtrees(x, out)
+		}
+	case map[string]any:
+		for _, x := range t {
+			subtrees(x, out)
+		}
+	}
+}
+
+// enumOverObject follows the fragments from the start values: true when an enumerating fragment meets an
+// object with two or more members (a descent: anywhere below).
+func enumOverObject(frs []pfrag, starts []any) bool {
+	cur := starts
+	for _, f := range frs {
+		var next []any
+		switch f.kind {
+		case 'c':
+			for _, v := range cur {
+				if m, ok := v.(map[string]any); ok {
+					if x, has := m[f.key]; has {
+						next = append(next, x)
+					}
+				}
+			}
+		case 'i':
+			for _, v := range cur {
+				if l, ok := v.([]any); ok {
+					j := f.idx
+					if j < 0 {
+						j += len(l)
+					}
+					if j >= 0 && j < len(l) {
+						next = append(next, l[j])
+					}
+				}
+			}
+		case '*', 'e':
+			for _, v := range cur {
+				switch t := v.(type) {
+				case map[string]any:
+					if len(t) >= 2 {
+						return true
+					}
+					for _, x := range t {
+						next = append(next, x)
+					}
+				case []any:
+					next = append(next, t...)
+				}
+			}
+		case 'd':
+			for _, v := range cur {
+				if hasMultiMap(v) {
+					return true
+				}
+				subtrees(v, &next)
+			}
+		}
+		if len(next) > 5000 {
+			next = next[:5000]
+		}
+		cur = next
+		if len(cur) == 0 {
+			return false
+		}
+	}
+	return false
+}
+
+// enumSite: some path argument of the plan enumerates an object of the data. datas: the root before the
+// run and the roots after the runs (a place the plan builds first shows in the latter). A path from `@`
+// (and the arguments of `at`) may start at any value of the data.
+func enumSite(plan any, datas []any) bool {
+	var anywhere []any
+	for _, d := range datas {
+		subtrees(d, &anywhere)
+	}
+	subtrees(plan, &anywhere) // literals of the plan are data, too
+	var walk func(v any, head string, argPos bool) bool
+	walk = func(v any, head string, argPos bool) bool {
+		switch t := v.(type) {
+		case string:
+			if !argPos || t == "" {
+				return false
+			}
+			var starts []any
+			switch {
+			case t[0] == '$' || head == "root":
+				starts = datas
+			case t[0] == '@' || head == "at":
+				starts = anywhere
+			default:
+				return false // a plain string
+			}
+			frs, ok := splitPath(t)
+			if !ok {
+				// not understood: only the data can say no
+				for _, d := range anywhere {
+					if hasMultiMap(d) {
+						return strings.ContainsAny(t, "*?:,") || strings.Contains(t, "..")
+					}
+				}
+				return false
+			}
+			return enumOverObject(frs, starts)
+		case []any:
+			h := ""
+			if len(t) > 0 {
+				h, _ = t[0].(string)
+			}
+			for i, x := range t {
+				if i == 0 {
+					if _, isStr := x.(string); isStr {
+						continue // the function name
+					}
+				}
+				if walk(x, h, true) {
+					return true
+				}
+			}
+		case map[string]any:
+			for _, x := range t {
+				if walk(x, "", true) {
+					return true
+				}
+			}
+		}
+		return false
+	}
+	return walk(plan, "", false)
+}
+
+// unorderedText renders a value with every list as a multiset (members sorted by their own text).
+func unorderedText(v any) string {
+	switch t := v.(type) {
+	case []any:
+		xs := make([]string, len(t))
+		for i, x := range t {
+			xs[i] = unorderedText(x)
+		}
+		sort.Strings(xs)
+		return "[" + strings.Join(xs, ",") + "]"
+	case map[string]any:
+		keys := make([]string, 0, len(t))
+		for k := range t {
+			keys = append(keys, k)
+		}
+		sort.Strings(keys)
+		var sb strings.Builder
+		sb.WriteByte('{')
+		for _, k := range keys {
+			sb.WriteString("K(" + hexF(k) + ")" + unorderedText(t[k]) + ",")
+		}
+		sb.WriteByte('}')
+		return sb.String()
+	}
+	return render(v)
+}
+
+// memberSwaps: a and b differ only at places where BOTH hold a value that is a member of an object with
+// two or more members of the data (or a value the plan holds as a literal): a path that takes the "first"
+// match of an enumeration of an object may take any member.
+func memberSwaps(a, b any, members map[string]bool) bool {
+	if unorderedText(a) == unorderedText(b) {
+		return true
+	}
+	inS := func(v any) bool { return members[render(v)] }
+	switch x := a.(type) {
+	case []any:
+		if y, ok := b.([]any); ok && len(x) == len(y) {
+			for i := range x {
+				if !memberSwaps(x[i], y[i], members) {
+					return inS(a) && inS(b)
+				}
+			}
+			return true
+		}
+	case map[string]any:
+		if y, ok := b.(map[string]any); ok {
+			good := true
+			for k, xv := range x {
+				if yv, has := y[k]; has {
+					good = good && memberSwaps(xv, yv, members)
+				} else {
+					good = good && inS(xv)
+				}
+			}
+			for k, yv := range y {
+				if _, has := x[k]; !has {
+					good = good && inS(yv)
+				}
+			}
+			if good {
+				return true
+			}
+		}
+	}
+	return inS(a) && inS(b)
+}
+
+// statements: the top-level calls of a plan in evaluation order.
+func statements(plan any) []any {
+	t, ok := plan.([]any)
+	if !ok || len(t) == 0 {
+		return []any{plan}
+	}
+	if h, isStr := t[0].(string); isStr {
+		if h == "asm" {
+			return t[1:]
+		}
+		return []any{plan}
+	}
+	return t
+}
+
+// writeTargets: the literal prefixes (keys and non-negative indices from `$`) of the target paths of every
+// set/setall/del/delall inside v; a target that is not a literal `$` path gives the empty prefix (anywhere).
+func writeTargets(v any, out *[][]pfrag) {
+	switch t := v.(type) {
+	case []any:
+		if len(t) >= 2 {
+			if f, ok := t[0].(string); ok && mutators[f] {
+				var pre []pfrag
+				if p, isStr := t[1].(string); isStr && strings.HasPrefix(p, "$") {
+					if frs, ok := splitPath(p); ok {
+						for _, fr := range frs {
+							if fr.kind == 'c' || (fr.kind == 'i' && fr.idx >= 0) {
+								pre = append(pre, fr)
+							} else {
+								break
+							}
+						}
+					}
+				}
+				*out = append(*out, pre)
+			}
+		}
+		for _, x := range t {
+			writeTargets(x, out)
+		}
+	case map[string]any:
+		for _, x := range t {
+			writeTargets(x, out)
+		}
+	}
+}
+
+func fragEq(a, b pfrag) bool { return a.kind == b.kind && a.key == b.key && a.idx == b.idx }
+
+// below: pos is at or below some target; above: some target is at or below pos.
+func relTargets(pos []pfrag, targets [][]pfrag) (below, above bool) {
+	for _, t := range targets {
+		n := len(t)
+		if len(pos) < n {
+			n = len(pos)
+		}
+		same := true
+		for i := 0; i < n; i++ {
+			if !fragEq(pos[i], t[i]) {
+				same = false
+				break
+			}
+		}
+		if same && len(pos) >= len(t) {
+			below = true
+		}
+		if same && len(pos) <= len(t) {
+			above = true
+		}
+	}
+	return
+}
+
+// diffConfined: a and b are equal everywhere except at or below the targets (a place that exists on one
+// side only may also lie above a target: the write that would have made it did not happen).
+func diffConfined(a, b any, pos []pfrag, targets [][]pfrag) bool {
+	if render(a) == render(b) {
+		return true
+	}
+	below, _ := relTargets(pos, targets)
+	if below {
+		return true
+	}
+	switch x := a.(type) {
+	case map[string]any:
+		y, ok := b.(map[string]any)
+		if !ok {
+			return false
+		}
+		keys := map[string]bool{}
+		for k := range x {
+			keys[k] = true
+		}
+		for k := range y {
+			keys[k] = true
+		}
+		for k := range keys {
+			p := append(append([]pfrag{}, pos...), pfrag{kind: 'c', key: k})
+			xv, hx := x[k]
+			yv, hy := y[k]
+			if hx && hy {
+				if !diffConfined(xv, yv, p, targets) {
+					return false
+				}
+			} else if bl, ab := relTargets(p, targets); !bl && !ab {
+				return false
+			}
+		}
+		return true
+	case []any:
+		y, ok := b.([]any)
+		if !ok {
+			return false
+		}
+		for i := 0; i < len(x) || i < len(y); i++ {
+			p := append(append([]pfrag{}, pos...), pfrag{kind: 'i', idx: i})
+			if i < len(x) && i < len(y) {
+				if !diffConfined(x[i], y[i], p, targets) {
+					return false
+				}
+			} else if bl, ab := relTargets(p, targets); !bl && !ab {
+				return false
+			}
+		}
+		return true
+	}
+	return false
+}
+
+func memberSet(plan any, datas []any) map[string]bool {
+	set := map[string]bool{}
+	var all []any
+	for _, d := range datas {
+		subtrees(d, &all)
+	}
+	for _, v := range all {
+		if m, ok := v.(map[string]any); ok && len(m) >= 2 {
+			for _, x := range m {
+				set[render(x)] = true
+			}
+		}
+	}
+	var lits []any
+	subtrees(plan, &lits)
+	for _, v := range lits {
+		set[render(v)] = true
+	}
+	return set
 }
 
 func usesFn(v any, names map[string]bool) bool {
